@@ -340,3 +340,99 @@ func (s *Solver) CheckPC(pc []*Term, extra *Term, wantModel bool) (Verdict, map[
 	}
 	return verdict, model, reason
 }
+
+// SetTimeout changes the per-query timeout of the incremental solver.
+func (s *Solver) SetTimeout(d time.Duration) {
+	if s.dead {
+		s.restart()
+	}
+	if strings.Contains(s.argv[0], "z3") {
+		s.send(fmt.Sprintf("(set-option :timeout %d)\n", d.Milliseconds()))
+	}
+}
+
+// CheckFresh decides the conjunction in a NEW solver process (non-incremental mode: z3 then runs its
+// full preprocessing pipeline, which decides many bit-vector queries the incremental core cannot).
+func (s *Solver) CheckFresh(assertions []*Term, wantModel bool, timeout time.Duration) (Verdict, map[string]uint64, string) {
+	t0 := time.Now()
+	s.Queries++
+	defer func() { s.Time += time.Since(t0) }()
+	var sb strings.Builder
+	p := NewPrinter(s.c)
+	sb.WriteString("(set-option :global-declarations true)\n")
+	refs := make([]string, len(assertions))
+	for i, a := range assertions {
+		refs[i] = p.Define(&sb, a)
+	}
+	for _, r := range refs {
+		fmt.Fprintf(&sb, "(assert %s)\n", r)
+	}
+	sb.WriteString("(check-sat)\n")
+	vars := CollectVars(assertions...)
+	if wantModel && len(vars) > 0 {
+		for i := 0; i < len(vars); i += 200 {
+			j := i + 200
+			if j > len(vars) {
+				j = len(vars)
+			}
+			sb.WriteString("(get-value (")
+			for _, v := range vars[i:j] {
+				sb.WriteString(SymName(v.Name))
+				sb.WriteByte(' ')
+			}
+			sb.WriteString("))\n")
+		}
+	}
+	argv := []string{"z3", fmt.Sprintf("-T:%d", int(timeout.Seconds())+1), "-in"}
+	if !strings.Contains(s.argv[0], "z3") {
+		argv = append([]string{}, s.argv...)
+	} else if s.argv[0] != "z3" {
+		argv[0] = s.argv[0]
+	}
+	cmd := exec.Command(argv[0], argv[1:]...)
+	cmd.Stdin = strings.NewReader(sb.String())
+	done := make(chan struct{})
+	var out []byte
+	go func() { out, _ = cmd.CombinedOutput(); close(done) }()
+	select {
+	case <-done:
+	case <-time.After(timeout + 10*time.Second):
+		if cmd.Process != nil {
+			cmd.Process.Kill()
+		}
+		<-done
+		return Unknown, nil, "fresh solver watchdog timeout"
+	}
+	txt := string(out)
+	lines := strings.Split(txt, "\n")
+	verdict := Unknown
+	for _, l := range lines {
+		l = strings.TrimSpace(l)
+		if l == "sat" {
+			verdict = Sat
+			break
+		}
+		if l == "unsat" {
+			verdict = Unsat
+			break
+		}
+		if l == "unknown" || l == "timeout" {
+			return Unknown, nil, "unknown"
+		}
+		if strings.HasPrefix(l, "(error") {
+			s.Errors = append(s.Errors, l)
+			return Unknown, nil, l
+		}
+	}
+	if verdict == Unsat && strings.Contains(txt, "(error") && !wantModel {
+		return Unknown, nil, "error in fresh solver output"
+	}
+	var model map[string]uint64
+	if verdict == Sat && wantModel {
+		model = map[string]uint64{}
+		for _, m := range valRe.FindAllStringSubmatch(txt, -1) {
+			model[strings.Trim(m[1], "|")] = parseVal(m[2])
+		}
+	}
+	return verdict, model, ""
+}
